@@ -963,8 +963,30 @@ fn run_keyed(ctl: &Arc<Ctl>, rng: &mut Rng_, ids: &mut Ids, out: &mut Out, n: us
                     let loaded = MDBShardFile::load_all_valid(dir.path()).map(|v| !v.is_empty());
                     let _ = MDBShardFile::clean_expired_shards(dir.path(), grace);
                     let still_there = ef.path.exists();
+                    // the same shard handed to a manager by explicit file path and by directory, before the clean-up ran
+                    let mut via = vec![];
+                    {
+                        let d2 = tempfile::tempdir().unwrap();
+                        let ctl2 = ctl.clone();
+                        ctl2.set_clock(t0);
+                        if let Ok(Ok(ef2)) = guarded(|| sf.export_with_expiration(d2.path(), Duration::from_secs(valid))) {
+                            ctl2.set_clock(now);
+                            let q: Vec<MerkleHash> = m.xorbs.iter().flat_map(|x| x.chunks.iter().map(|c| c.2)).take(1).collect();
+                            for (how, target) in [("file", ef2.path.clone()), ("dir", d2.path().to_path_buf())] {
+                                // (a session-directory manager does not scan its directory by itself)
+                                let found = rt.block_on(async {
+                                    let mg = ShardFileManager::new_in_session_directory(d2.path()).await.ok()?;
+                                    mg.register_shards_by_path(&[target.clone()]).await.ok()?;
+                                    let n = mg.registered_shard_list().await.ok()?.len();
+                                    let hit = if q.is_empty() { None } else { mg.chunk_hash_dedup_query(&q).await.ok()? };
+                                    Some((n, hit.is_some()))
+                                });
+                                via.push(json!({"how": how, "registered": found.map(|f| f.0).unwrap_or(99), "answers": found.map(|f| f.1).unwrap_or(true), "has_chunks": !q.is_empty()}));
+                            }
+                        }
+                    }
                     out.ev("ShExpiry", json!({"creation": t0 - 1_000_000, "valid": valid, "expiry": expiry - 1_000_000, "grace": grace, "now": now - 1_000_000,
-                                              "loaded": loaded.unwrap_or(false), "deleted": !still_there}));
+                                              "loaded": loaded.unwrap_or(false), "deleted": !still_there, "via": via}));
                 },
                 Ok(Err(e)) => out.ev("ShError", json!({"what": format!("export_with_expiration: {e:?}")})),
                 Err(p) => out.ev("ShPanic", json!({"what": p})),
